@@ -32,6 +32,9 @@ def real_app(backend: str, app_id: str | None = None, db_path: str | None = None
                 tmp = tempfile.mkdtemp(prefix="pyvc_db_")
                 db_path = os.path.join(tmp, "db.sqlite")
             b = b.sqlite(db_path)
+        ser = custom.pop("serializer", None)
+        if ser:
+            b = {"json": b.serializer_json, "pickle": b.serializer_pickle, "jsonpickle": b.serializer_json_pickle}[ser]()
         if custom:
             b = b.custom_config(**custom)
         app = b.build()
